@@ -2,12 +2,14 @@ package checks
 
 import (
 	"fmt"
+	"reflect"
 	"sort"
 	"time"
 
 	ap "github.com/go-ap/activitypub"
 
 	"verif/internal/engine"
+	"verif/internal/universe"
 )
 
 // C17 — ItemOrderTimestamp is a strict weak order consistent with publication time.
@@ -36,6 +38,8 @@ func c17Items() []c17Item {
 	}{
 		{"zero", time.Time{}}, {"t1", t1}, {"t2", t2}, {"t3", t3},
 		{"t2@+05", t2.In(time.FixedZone("p5", 5*3600))}, {"t2+1ns", t2.Add(time.Nanosecond)},
+		// magnitudes: before and at the Unix epoch, and beyond the range of UnixNano (year 2262)
+		{"1969", time.Date(1969, 7, 20, 20, 17, 40, 0, time.UTC)}, {"epoch", time.Unix(0, 0).UTC()}, {"2300", time.Date(2300, 1, 1, 0, 0, 0, 0, time.UTC)},
 	}
 	later := func(p, u time.Time) time.Time {
 		if u.After(p) {
@@ -61,6 +65,35 @@ func c17Items() []c17Item {
 		out = append(out, c17Item{name: fmt.Sprintf("*Place{updated:%s}", p.n), kind: "*Place",
 			it: &ap.Place{ID: "https://example.com/pl", Type: ap.PlaceType, Updated: p.t}, key: p.t})
 	}
+	// every object struct of the vocabulary (pointer and value) with published/updated from two instants and EVERY OTHER instant
+	// property (startTime, endTime, deleted, closed ...) set to a decoy in the year 2500: only published/updated may decide
+	decoy := time.Date(2500, 1, 1, 0, 0, 0, 0, time.UTC)
+	for si := range universe.Structs {
+		st := &universe.Structs[si]
+		if st.Family == "link" {
+			continue
+		}
+		for k, pu := range [][2]int{{1, 0}, {0, 2}, {2, 3}, {3, 1}, {5, 2}} {
+			p, u := inst[pu[0]], inst[pu[1]]
+			v := reflect.New(st.Type)
+			e := v.Elem()
+			e.FieldByName("ID").Set(reflect.ValueOf(ap.IRI("https://example.com/x")))
+			e.FieldByName("Type").Set(reflect.ValueOf(ap.ActivityVocabularyType(st.SpecificName())))
+			for _, f := range st.Fields {
+				if f.Kind == universe.KTime {
+					e.Field(f.Index).Set(reflect.ValueOf(decoy))
+				}
+			}
+			e.FieldByName("Published").Set(reflect.ValueOf(p.t))
+			e.FieldByName("Updated").Set(reflect.ValueOf(u.t))
+			var it ap.Item = v.Interface().(ap.Item)
+			kind := "*" + st.Name
+			if k%2 == 1 {
+				it, kind = e.Interface().(ap.Item), st.Name
+			}
+			out = append(out, c17Item{name: fmt.Sprintf("%s{published:%s,updated:%s,other instants:2500}", kind, p.n, u.n), kind: kind, it: it, key: later(p.t, u.t)})
+		}
+	}
 	return out
 }
 
@@ -77,7 +110,7 @@ func c17Ref(a, b c17Item) bool {
 func init() {
 	engine.Register(&engine.Check{
 		ID: "C17", Name: "timestamp-order", Level: "model_checking",
-		Rule: "every ordered pair and triple of the item grid (6 instants^2 on *Object, view types, nil, typed nil) is one case; " +
+		Rule: "every ordered pair and triple of the item grid (9 instants^2 on *Object - zero, three dates, a zone variant, +1ns, 1969, the epoch, year 2300 -, view types, nil, typed nil) is one case; " +
 			"every permutation of every 5-subset of 7 distinct-key items and of a 6-set with ties is one sort case; " +
 			"non-trivial = pair with two non-nil items or a sort of >=5 items",
 		Assumptions: []string{"sort.Slice is correct for a strict weak order", "reading D9 of DESIGN.md: domain = object struct types and nil"},
